@@ -602,24 +602,29 @@ PROPS['C02']['rules'] += [partial(R6.rule_date_whole,
                           R6.rule_dense_flag]
 PROPS['C04']['rules'] += [R6.rule_group_md_order]
 PROPS['C03']['rules'] += [R6.rule_squeeze, R6.rule_parsed_ids,
-                          R6.rule_row_counter, R6.rule_ids_as_read]
+                          R6.rule_row_counter, R6.rule_ids_as_read,
+                          R6.rule_convert_writes_asis]
 PROPS['C05']['rules'] += [R6.rule_new_axis_metadata, R6.rule_check_all_kinds]
 PROPS['C18']['rules'] += [R6.rule_new_axis_metadata, R6.rule_quotes_everywhere,
                           R6.rule_split_strips]
 PROPS['C10']['rules'] += [R6.rule_flag_accumulated]
-PROPS['C11']['rules'] += [R6.rule_partition_yields_all]
+PROPS['C11']['rules'] += [R6.rule_partition_yields_all,
+                          R6.rule_sparse_ordinal]
 PROPS['C12']['rules'] += [R6.rule_kernel_unconditional,
                           R6.rule_cleanup_unconditional,
-                          R6.rule_id_set_raw]
+                          R6.rule_id_set_raw, R6.rule_kernel_input]
 PROPS['C13']['rules'] += [R6.rule_rank_methods, R6.rule_normalize_cli_thin]
 PROPS['C14']['rules'] += [R6.rule_file_ids, R6.rule_filter_order,
                           partial(R6.rule_filtered_stack,
                                   funcs=('Table.from_hdf5',))]
 PROPS['C17']['rules'] += [R6.rule_errmsg_repr, R6.rule_adjacency_header,
                           R6.rule_uc_pairs]
-PROPS['C19']['rules'] += [R6.rule_reduce_all, R6.rule_export_asis]
+PROPS['C19']['rules'] += [R6.rule_reduce_all, R6.rule_export_asis,
+                          R6.rule_cli_same_output, R6.rule_orient_first]
 PROPS['C09']['rules'] += [R6.rule_value_buffer_dtype]
 PROPS['C16']['rules'] += [R6.rule_raw_format]
+PROPS['C06']['rules'] += [R6.rule_raw_format]
+PROPS['C05']['rules'] += [R6.rule_raw_format]
 for _pid in ('C05', 'C08'):
     PROPS[_pid]['rules'] += [R6.rule_stored_extreme_guarded]
 for _pid in ('C01', 'C04'):
